@@ -46,6 +46,10 @@ SPECIAL = [
                           '\\tikzset{x} \\begin{tikzpicture}\\end{tikzpicture} \\zzq B', ['\\zzq']),
     ('glossaries_extra_requires', '\\usepackage{glossaries-extra}A \\newabbreviation{a}{b}{c} \\glsdisp{a}{T} '
                                   '\\zzq', ['\\zzq']),
+    # arguments that a handler only evaluates (phantoms, lengths) inside maths: used in maths only
+    ('handler_args_in_math', '$x \\phantom{\\zzsum} y \\hphantom{\\zzint}$ A \\[ a\\hspace{\\zzlen}b \\] \\zzq',
+     ['\\zzq']),
+    ('handler_args_math_then_text', '$\\phantom{\\zza}$ \\zzb \\phantom{\\zza}', ['\\zzb', '\\zza']),
     ('env_in_math', '\\[ \\begin{zzmat} a \\end{zzmat} \\] \\begin{zzmat}b\\end{zzmat}', ['zzmat']),
 ]
 OPTSETS = [{'pack': '*'}, {'pack': ''}, {'pack': '*', 'repl': ['zzd & zzq', 'zza zzb & x', 'zzenv & E'],
